@@ -2004,10 +2004,10 @@ class AnsiStr(str):
         *settings:Union[AnsiFormat, AnsiSetting, str, int, list, tuple]
     ):
         if isinstance(s, AnsiString):
-            ansi_string = s.copy()
+            ansi_string = AnsiString(s, *settings)
         elif isinstance(s, AnsiStr):
             if settings:
-                ansi_string = s._s
+                ansi_string = AnsiString(s, *settings)
             else:
                 instance = super().__new__(cls, str(s))
                 instance._s = s._s
